@@ -433,6 +433,10 @@ where
                         mark_branches,
                         vec![],
                     );
+                    // the parser drops a line feed that directly follows the start tag
+                    if text.starts_with('\n') {
+                        buf.push('\n');
+                    }
                     buf.push_str(&html_escape::encode_text(&text));
                 } else {
                     self.children.to_html_with_buf(
@@ -495,6 +499,10 @@ where
                 // wrote is still at the end of the synchronous buffer
                 if escapable && buffer.chunks.len() == chunks_before {
                     let text = buffer.sync_buf.split_off(text_start);
+                    // the parser drops a line feed that directly follows the start tag
+                    if text.starts_with('\n') {
+                        buffer.sync_buf.push('\n');
+                    }
                     buffer
                         .sync_buf
                         .push_str(&html_escape::encode_text(&text));
